@@ -33,7 +33,7 @@ static long inf(uint32_t v) { return v == 0xffffffffu ? INF : (long) v; }
 static std::string project(ObjectQueue<ObjectHeaderBase> & q, long ret) {
     JObj o;
     std::vector<long> ids;
-    for (ObjectHeaderBase * x : snapshot(q.m_queue)) ids.push_back((long) x->objectSize);
+    for (ObjectHeaderBase * x : snapshot(q.m_queue)) ids.push_back(x ? (long) x->objectSize : 0);
     o.putb("abort", q.m_abort);
     o.raw("q", jarr(ids.begin(), ids.end(), [](long v) { return jint(v); }));
     // counters through the public observers, the rest from the private members
@@ -66,8 +66,11 @@ int main(int argc, char ** argv) {
             const std::string & op = s.act.at(0);
             long arg = atol(s.act.at(1).c_str());
             if (op == "write") {
-                ObjectHeaderBase * o = new ObjectHeaderBase(1, ObjectType::UNKNOWN);
-                o->objectSize = (uint32_t) arg;
+                ObjectHeaderBase * o = nullptr;          // write 0 = a null entry ("nullptr can be pushed")
+                if (arg != 0) {
+                    o = new ObjectHeaderBase(1, ObjectType::UNKNOWN);
+                    o->objectSize = (uint32_t) arg;
+                }
                 q.write(o);
             } else if (op == "read") {
                 ObjectHeaderBase * o = q.read();
